@@ -337,9 +337,14 @@ def collect_functions(chk: Check, fn, *a, **kw):
             fnm = frame.f_code.co_filename
             if "/peg_parser/" in fnm or "/pegen/" in fnm or "/tasks/" in fnm:
                 names.add(os.path.basename(fnm) + ":" + frame.f_code.co_qualname)
+    from .oracles import time_limit
     sys.setprofile(prof)
     try:
-        return fn(*a, **kw)
+        with time_limit(10.0):
+            try:
+                return fn(*a, **kw)
+            except Exception:  # noqa: BLE001   (only used to list the functions that run; failures are the checks' business)
+                return None
     finally:
         sys.setprofile(None)
         if len(names) > 60:
